@@ -302,12 +302,23 @@ func HarnessC02Readers() {
 	// without views, or with two views that rename the instrument to names
 	// differing only in case (one stream identity: still counted once)
 	var views []View
-	if vndChoice(2) == 1 {
+	vc := vndChoice(3)
+	switch vc {
+	case 1:
 		views = []View{NewView(Instrument{Name: "c"}, Stream{Name: "x"}), NewView(Instrument{Name: "c"}, Stream{Name: "X"})}
+	case 2:
+		// a valid renaming view next to a view whose aggregation the instrument
+		// kind does not support: the latter is reported and skipped, the former
+		// still carries every measurement
+		views = []View{NewView(Instrument{Name: "c"}, Stream{Name: "x"}), NewView(Instrument{Name: "*"}, Stream{Aggregation: AggregationLastValue{}})}
 	}
 	mp := pipeProvider(views, rd, rc)
 	c, err := mp.Meter("m").Int64UpDownCounter("c")
-	vndAssert(err == nil, "instrument-created")
+	if vc == 2 {
+		vndAssert(err != nil && c != nil, "incompatible-view-reported-instrument-still-returned")
+	} else {
+		vndAssert(err == nil, "instrument-created")
+	}
 	steps := vndParam("STEPS", 4)
 	var total, deltaTotal, cumLatest [2]int64
 	read := func(r Reader, into *[2]int64, add bool) {
